@@ -725,6 +725,13 @@ func (env *specEnv) evalCall(e *SExpr) sval {
 			env.fail(e, "macstr needs a byte slice")
 		}
 		return sval{fv.hwaddrStr(env.cur, v.t), types.Typ[types.String]}
+	case "hexstr":
+		// hexstr(b): the string encoding/hex.EncodeToString(b) yields in the current state
+		v := env.eval(args[0])
+		if v.t.Sort != SliceSort {
+			env.fail(e, "hexstr needs a byte slice")
+		}
+		return sval{fv.hexStr(env.cur, v.t), types.Typ[types.String]}
 	case "ipkey", "ipstr":
 		// ipkey(x): identity of the net.IP.Equal class of x in the current state; ipstr(x) = x.String()
 		v := env.eval(args[0])
